@@ -314,7 +314,17 @@ func init() {
 	if zetaPow[128] != Q-1 || zetaPow[255]*17%Q != 1 {
 		panic("mlkem: zeta is not a primitive 256th root of unity")
 	}
+	// tables of gamma_i^j and gamma_i^-j with gamma_i = zeta^(2 BitRev7(i)+1)
+	for i := 0; i < 128; i++ {
+		e := 2*BitRev7(i) + 1
+		for j := 0; j < 128; j++ {
+			gammaPow[i][j] = zetaPow[(e*j)%256]
+			gammaInvPow[i][j] = zetaPow[(256-(e*j)%256)%256]
+		}
+	}
 }
+
+var gammaPow, gammaInvPow [128][128]int
 
 // Gamma returns zeta^(2*BitRev7(i)+1), the root belonging to the i-th
 // quadratic factor X^2 - gamma of X^256+1.
@@ -325,14 +335,13 @@ func Gamma(i int) int { return zetaPow[2*BitRev7(i)+1] }
 func NTT(f *Poly) *Poly {
 	var out Poly
 	for i := 0; i < 128; i++ {
-		e := 2*BitRev7(i) + 1
 		s0, s1 := 0, 0
 		for j := 0; j < 128; j++ {
-			g := zetaPow[(e*j)%256]
-			s0 = (s0 + f[2*j]*g) % Q
-			s1 = (s1 + f[2*j+1]*g) % Q
+			g := gammaPow[i][j] // gamma_i^j
+			s0 += f[2*j] * g    // < 128 * q^2 < 2^31: no overflow, reduce once at the end
+			s1 += f[2*j+1] * g
 		}
-		out[2*i], out[2*i+1] = s0, s1
+		out[2*i], out[2*i+1] = s0%Q, s1%Q
 	}
 	return &out
 }
@@ -349,12 +358,11 @@ func InvNTT(fh *Poly) *Poly {
 	for j := 0; j < 128; j++ {
 		s0, s1 := 0, 0
 		for i := 0; i < 128; i++ {
-			e := 2*BitRev7(i) + 1
-			g := zetaPow[(256-(e*j)%256)%256]
-			s0 = (s0 + fh[2*i]*g) % Q
-			s1 = (s1 + fh[2*i+1]*g) % Q
+			g := gammaInvPow[i][j] // gamma_i^-j
+			s0 += fh[2*i] * g
+			s1 += fh[2*i+1] * g
 		}
-		out[2*j], out[2*j+1] = s0*inv128%Q, s1*inv128%Q
+		out[2*j], out[2*j+1] = s0%Q*inv128%Q, s1%Q*inv128%Q
 	}
 	return &out
 }
@@ -435,7 +443,17 @@ func (p *Params) PKEKeyGen(d []byte) (ekPKE, dkPKE []byte) {
 	} else {
 		g = G(d, []byte{byte(p.K)})
 	}
-	rho, sigma := g[:32], g[32:]
+	return p.PKEKeyGenRhoSigma(g[:32], g[32:])
+}
+
+// PKEKeyGenRhoSigma is the body of K-PKE.KeyGen (algorithm 13, lines 2-20)
+// for a given matrix seed rho and noise seed sigma. It lets a test build
+// consistent key pairs whose rho is an edge value (all-zero, ...), which the
+// hash in line 1 never produces.
+func (p *Params) PKEKeyGenRhoSigma(rho, sigma []byte) (ekPKE, dkPKE []byte) {
+	if len(rho) != 32 || len(sigma) != 32 {
+		panic("mlkem: rho and sigma must be 32 bytes")
+	}
 	A := p.expandA(rho)
 	n := 0
 	s := make([]*Poly, p.K)
@@ -539,10 +557,21 @@ func (p *Params) PKEDecrypt(dkPKE, c []byte) []byte {
 // KeyGen is ML-KEM.KeyGen_internal(d, z) resp. Kyber.CCAKEM.KeyGen with the
 // two random 32-byte strings made explicit.
 func (p *Params) KeyGen(d, z []byte) (ek, dk []byte) {
+	ek, dkPKE := p.PKEKeyGen(d)
+	return p.assembleDk(ek, dkPKE, z)
+}
+
+// KeyGenRhoSigma is KeyGen with (rho, sigma) given instead of derived from d.
+func (p *Params) KeyGenRhoSigma(rho, sigma, z []byte) (ek, dk []byte) {
+	ek, dkPKE := p.PKEKeyGenRhoSigma(rho, sigma)
+	return p.assembleDk(ek, dkPKE, z)
+}
+
+func (p *Params) assembleDk(ek, dkPKE, z []byte) ([]byte, []byte) {
 	if len(z) != 32 {
 		panic("mlkem: z must be 32 bytes")
 	}
-	ek, dkPKE := p.PKEKeyGen(d)
+	var dk []byte
 	dk = append(dk, dkPKE...)
 	dk = append(dk, ek...)
 	dk = append(dk, H(ek)...)
